@@ -32,6 +32,10 @@ limitations under the License.
 #include <photon/common/timeout.h>
 #include <photon/common/utility.h>
 #include <photon/thread/thread.h>
+#include <photon/common/verif-hooks.h>
+#ifdef PHOTON_VERIF
+#include <cerrno>
+#endif
 
 struct PauseBase {};
 
@@ -232,7 +236,9 @@ public:
             auto& mark = ps.mark;
             if (mark.load(std::memory_order_acquire) == last_turn_read(t)) {
                 if (tail.compare_exchange_strong(t, t + 1)) {
+                    VERIF_POINT(P_RING_PUSH_CLAIMED);
                     slot = x;
+                    VERIF_POINT(P_RING_PUSH_CLAIMED);
                     mark.store(this_turn_write(t), std::memory_order_release);
                     return true;
                 }
@@ -241,6 +247,7 @@ public:
                 auto h = head.load(std::memory_order_acquire);
                 t = tail.load(std::memory_order_acquire);
                 if (t == prevTail && Base::check_full(h, t)) {
+                    VERIF_COV(C_RING_PUSH_FULL);
                     return false;
                 }
             }
@@ -255,7 +262,9 @@ public:
             auto& mark = ps.mark;
             if (mark.load(std::memory_order_acquire) == this_turn_write(h)) {
                 if (head.compare_exchange_strong(h, h + 1)) {
+                    VERIF_POINT(P_RING_POP_CLAIMED);
                     x = slot;
+                    VERIF_POINT(P_RING_POP_CLAIMED);
                     mark.store(this_turn_read(h), std::memory_order_release);
                     return true;
                 }
@@ -264,6 +273,7 @@ public:
                 auto t = tail.load(std::memory_order_acquire);
                 h = head.load(std::memory_order_acquire);
                 if (h == prevHead && Base::check_empty(h, t)) {
+                    VERIF_COV(C_RING_POP_EMPTY);
                     return false;
                 }
             }
@@ -280,7 +290,9 @@ public:
         auto& mark = ps.mark;
         while (mark.load(std::memory_order_acquire) != last_turn_read(t))
             Pause::pause();
+        VERIF_POINT(P_RING_PUSH_CLAIMED);
         slot = x;
+        VERIF_POINT(P_RING_PUSH_CLAIMED);
         mark.store(this_turn_write(t), std::memory_order_release);
     }
 
@@ -294,7 +306,9 @@ public:
         auto& mark = ps.mark;
         while (mark.load(std::memory_order_acquire) != this_turn_write(h))
             Pause::pause();
+        VERIF_POINT(P_RING_POP_CLAIMED);
         T ret = slot;
+        VERIF_POINT(P_RING_POP_CLAIMED);
         mark.store(this_turn_read(h), std::memory_order_release);
         return ret;
     }
@@ -335,20 +349,26 @@ public:
         for (;;) {
             rh = head.load(std::memory_order_acquire);
             auto wn = std::min(n, Base::capacity - (wt - rh));
+#ifdef PHOTON_VERIF
+            if (wn == 0 && n != 0) VERIF_COV(C_RING_PUSH_FULL);
+#endif
             if (wn == 0) return 0;
             if (!tail.compare_exchange_strong(wt, wt + wn,
                                               std::memory_order_acq_rel))
                 continue;
+            VERIF_POINT(P_RING_BATCH_PUSH_CLAIMED);
             auto first_idx = idx(wt);
             auto part_length = Base::capacity - first_idx;
             if (likely(part_length >= wn)) {
                 memcpy(&slots[first_idx], x, sizeof(T) * wn);
             } else {
+                VERIF_COV(C_RING_BATCH_WRAP);
                 if (likely(part_length))
                     memcpy(&slots[first_idx], x, sizeof(T) * (part_length));
                 memcpy(&slots[0], x + part_length,
                        sizeof(T) * (wn - part_length));
             }
+            VERIF_POINT(P_RING_BATCH_PUSH_CLAIMED);
             auto wh = wt;
             while (!write_head.compare_exchange_strong(
                 wh, wt + wn, std::memory_order_acq_rel))
@@ -365,20 +385,26 @@ public:
         for (;;) {
             wh = write_head.load(std::memory_order_acquire);
             auto rn = std::min(n, wh - rt);
+#ifdef PHOTON_VERIF
+            if (rn == 0 && n != 0) VERIF_COV(C_RING_POP_EMPTY);
+#endif
             if (rn == 0) return 0;
             if (!read_tail.compare_exchange_strong(rt, rt + rn,
                                                    std::memory_order_acq_rel))
                 continue;
+            VERIF_POINT(P_RING_BATCH_POP_CLAIMED);
             auto first_idx = idx(rt);
             auto part_length = Base::capacity - first_idx;
             if (likely(part_length >= rn)) {
                 memcpy(x, &slots[first_idx], sizeof(T) * rn);
             } else {
+                VERIF_COV(C_RING_BATCH_WRAP);
                 if (likely(part_length))
                     memcpy(x, &slots[first_idx], sizeof(T) * (part_length));
                 memcpy(x + part_length, &slots[0],
                        sizeof(T) * (rn - part_length));
             }
+            VERIF_POINT(P_RING_BATCH_POP_CLAIMED);
             auto rh = rt;
             while (!head.compare_exchange_strong(rh, rt + rn,
                                                  std::memory_order_acq_rel))
@@ -473,6 +499,7 @@ public:
         auto t = tail.load(std::memory_order_acquire);
         if (unlikely(Base::check_full(head, t))) return false;
         slots[idx(t)] = x;
+        VERIF_POINT(P_SPSC_PUSH);
         tail.store(t + 1, std::memory_order_release);
         return true;
     }
@@ -481,6 +508,7 @@ public:
         auto h = head.load(std::memory_order_acquire);
         if (unlikely(Base::check_empty(h, tail))) return false;
         x = slots[idx(h)];
+        VERIF_POINT(P_SPSC_POP);
         head.store(h + 1, std::memory_order_release);
         return true;
     }
@@ -499,15 +527,20 @@ public:
         auto t = tail.load(std::memory_order_relaxed);
         n = std::min(
             n, Base::capacity - (t - head.load(std::memory_order_acquire)));
+#ifdef PHOTON_VERIF
+        if (n == 0) VERIF_COV(C_RING_PUSH_FULL);
+#endif
         if (n == 0) return 0;
         auto first_idx = idx(t);
         auto part_length = Base::capacity - first_idx;
         if (likely(part_length >= n)) {
             produce(&slots[first_idx], n, nullptr, 0);
         } else {
+            VERIF_COV(C_RING_BATCH_WRAP);
             produce(&slots[first_idx], part_length,
                     &slots[0], n - part_length);
         }
+        VERIF_POINT(P_SPSC_PUSH);
         tail.store(t + n, std::memory_order_release);
         return n;
     }
@@ -521,9 +554,11 @@ public:
         if (likely(part_length >= n)) {
             produce(&slots[first_idx], n, nullptr, 0);
         } else {
+            VERIF_COV(C_RING_BATCH_WRAP);
             produce(&slots[first_idx], part_length,
                     &slots[0], n - part_length);
         }
+        VERIF_POINT(P_SPSC_PUSH);
         tail.store(t + n, std::memory_order_release);
         return n;
     }
@@ -542,15 +577,20 @@ public:
     size_t consume_pop_batch(size_t n, Consumer&& consume) {
         auto h = head.load(std::memory_order_relaxed);
         n = std::min(n, tail.load(std::memory_order_acquire) - h);
+#ifdef PHOTON_VERIF
+        if (n == 0) VERIF_COV(C_RING_POP_EMPTY);
+#endif
         if (n == 0) return 0;
         auto first_idx = idx(h);
         auto part_length = Base::capacity - first_idx;
         if (likely(part_length >= n)) {
             consume(&slots[first_idx], n, nullptr, 0);
         } else {
+            VERIF_COV(C_RING_BATCH_WRAP);
             consume(&slots[first_idx], part_length,
                     &slots[0], n - part_length);
         }
+        VERIF_POINT(P_SPSC_POP);
         head.store(h + n, std::memory_order_release);
         return n;
     }
@@ -661,19 +701,52 @@ struct SendBackoff {
             DEFER(send_waiters.fetch_sub(1, std::memory_order_seq_cst));
             Timeout yield_timeout(yield_usec);
             uint64_t yt = yield_turn;
+#ifdef PHOTON_VERIF
+            // deadline of a timed wait that ended by timeout right before the
+            // latest push attempt (1 = built-in period), 0 otherwise
+            uint64_t verif_expired = 0;
+#endif
             while (!push_fn(x)) {
+#ifdef PHOTON_VERIF
+                verif_expired = 0;
+#endif
                 if (yt > 0 && !yield_timeout.expired()) {
                     yt--;
                     photon::thread_yield();
                 } else {
                     // wait for 100ms
+#ifdef PHOTON_VERIF
+                    VERIF_COV(C_RINGCHAN_SENDER_BACKOFF);
+                    if (int64_t verif_us = VERIF_TUNABLE(T_RING_RECHECK_US)) {
+                        // same as below, with the harness-set re-check period
+                        Timeout verif_tmo((uint64_t)verif_us);
+                        int verif_r = send_sem.wait(1, verif_tmo);
+                        if (verif_r == 0)
+                            send_pending.fetch_sub(1, std::memory_order_acq_rel);
+                        else if (errno == ETIMEDOUT)
+                            verif_expired = verif_tmo.expiration();
+                        yt = yield_turn;
+                        yield_timeout.timeout(yield_usec);
+                        continue;
+                    }
+#endif
                     int r = send_sem.wait(1, 100UL * 1000);
+#ifdef PHOTON_VERIF
+                    if (r != 0 && errno == ETIMEDOUT) verif_expired = 1;
+#endif
                     if (r == 0)
                         send_pending.fetch_sub(1, std::memory_order_acq_rel);
                     yt = yield_turn;
                     yield_timeout.timeout(yield_usec);
                 }
             }
+#ifdef PHOTON_VERIF
+            if (verif_expired) {
+                // a blocked sender was only rescued by its periodic re-check
+                VERIF_COV(C_RINGCHAN_RESCUE);
+                VERIF_EVENT(E_RING_RESCUE, &send_sem, verif_expired);
+            }
+#endif
         }
     }
 
@@ -745,6 +818,7 @@ public:
         SendBackoff<T>::template push_backoff<Pause>(x, [this](const T& v) { return push(v); },
                             default_yield_turn, default_yield_usec,
                             send_sem, send_waiters, send_pending);
+        VERIF_POINT(P_RINGCHAN_SEND_AFTER_PUSH);
         // Dekker barrier: ensure the prior push (mark.store release) is
         // ordered before the following idler load, paired with the seq_cst
         // RMW on `idler` in recv(). This guarantees that we cannot
@@ -783,17 +857,47 @@ public:
         // yield once if failed, so photon::now will be updated
         photon::thread_yield();
         // seq_cst on idler is the other half of the Dekker barrier (see send).
+        VERIF_POINT(P_RINGCHAN_RECV_BEFORE_IDLE);
         idler.fetch_add(1, std::memory_order_seq_cst);
         DEFER(idler.fetch_sub(1, std::memory_order_seq_cst));
         Timeout yield_timeout(max_yield_usec);
         uint64_t yield_turn = max_yield_turn;
+#ifdef PHOTON_VERIF
+        // deadline of a timed wait that ended by timeout right before the
+        // latest pop attempt (1 = built-in period), 0 otherwise
+        uint64_t verif_expired = 0;
+#endif
         while (!pop(x)) {
+#ifdef PHOTON_VERIF
+            verif_expired = 0;
+#endif
             if (yield_turn > 0 && !yield_timeout.expired()) {
                 yield_turn--;
                 photon::thread_yield();
             } else {
                 // wait for 100ms
+#ifdef PHOTON_VERIF
+                VERIF_COV(C_RINGCHAN_CONSUMER_SLEPT);
+                if (int64_t verif_us = VERIF_TUNABLE(T_RING_RECHECK_US)) {
+                    // same as below, with the harness-set re-check period
+                    Timeout verif_tmo((uint64_t)verif_us);
+                    int verif_r = queue_sem.wait(1, verif_tmo);
+                    if (verif_r == 0) {
+                        VERIF_COV(C_RINGCHAN_CONSUMER_SIGNALLED);
+                        pending.fetch_sub(1, std::memory_order_acq_rel);
+                    } else if (errno == ETIMEDOUT) {
+                        verif_expired = verif_tmo.expiration();
+                    }
+                    yield_turn = max_yield_turn;
+                    yield_timeout.timeout(max_yield_usec);
+                    continue;
+                }
+#endif
                 int r = queue_sem.wait(1, 100ULL * 1000);
+#ifdef PHOTON_VERIF
+                if (r == 0) VERIF_COV(C_RINGCHAN_CONSUMER_SIGNALLED);
+                else if (errno == ETIMEDOUT) verif_expired = 1;
+#endif
                 // r == 0 means we actually consumed one m_count token; mirror
                 // it on `pending`. r < 0 (timeout/interrupt) does not touch
                 // m_count, so we must not touch `pending` either.
@@ -804,6 +908,13 @@ public:
                 yield_timeout.timeout(max_yield_usec);
             }
         }
+#ifdef PHOTON_VERIF
+        if (verif_expired) {
+            // a sleeping consumer was only rescued by its periodic re-check
+            VERIF_COV(C_RINGCHAN_RESCUE);
+            VERIF_EVENT(E_RING_RESCUE, this, verif_expired);
+        }
+#endif
         SendBackoff<T>::notify_senders(send_sem, send_waiters, send_pending);
         return x;
     }
@@ -872,6 +983,7 @@ public:
         SendBackoff<T>::template push_backoff<Pause>(x, [this](const T& v) { return queue->push(v); },
                             default_yield_turn, default_yield_usec,
                             send_sem, send_waiters, send_pending);
+        VERIF_POINT(P_RINGCHAN_SEND_AFTER_PUSH);
         // Dekker barrier: ensure the prior push is ordered before the
         // following idler load, paired with the seq_cst RMW on `idler`
         // in recv().
@@ -907,17 +1019,47 @@ public:
         // yield once if failed, so photon::now will be updated
         photon::thread_yield();
         // seq_cst on idler is the other half of the Dekker barrier (see send).
+        VERIF_POINT(P_RINGCHAN_RECV_BEFORE_IDLE);
         idler.fetch_add(1, std::memory_order_seq_cst);
         DEFER(idler.fetch_sub(1, std::memory_order_seq_cst));
         Timeout yield_timeout(max_yield_usec);
         uint64_t yield_turn = max_yield_turn;
+#ifdef PHOTON_VERIF
+        // deadline of a timed wait that ended by timeout right before the
+        // latest pop attempt (1 = built-in period), 0 otherwise
+        uint64_t verif_expired = 0;
+#endif
         while (!queue->pop(x)) {
+#ifdef PHOTON_VERIF
+            verif_expired = 0;
+#endif
             if (yield_turn > 0 && !yield_timeout.expired()) {
                 yield_turn--;
                 photon::thread_yield();
             } else {
                 // wait for 100ms
+#ifdef PHOTON_VERIF
+                VERIF_COV(C_RINGCHAN_CONSUMER_SLEPT);
+                if (int64_t verif_us = VERIF_TUNABLE(T_RING_RECHECK_US)) {
+                    // same as below, with the harness-set re-check period
+                    Timeout verif_tmo((uint64_t)verif_us);
+                    int verif_r = queue_sem.wait(1, verif_tmo);
+                    if (verif_r == 0) {
+                        VERIF_COV(C_RINGCHAN_CONSUMER_SIGNALLED);
+                        pending.fetch_sub(1, std::memory_order_acq_rel);
+                    } else if (errno == ETIMEDOUT) {
+                        verif_expired = verif_tmo.expiration();
+                    }
+                    yield_turn = max_yield_turn;
+                    yield_timeout.timeout(max_yield_usec);
+                    continue;
+                }
+#endif
                 int r = queue_sem.wait(1, 100UL * 1000);
+#ifdef PHOTON_VERIF
+                if (r == 0) VERIF_COV(C_RINGCHAN_CONSUMER_SIGNALLED);
+                else if (errno == ETIMEDOUT) verif_expired = 1;
+#endif
                 // r == 0 means we actually consumed one m_count token; mirror
                 // it on `pending`. r < 0 (timeout/interrupt) does not touch
                 // m_count, so we must not touch `pending` either.
@@ -928,6 +1070,13 @@ public:
                 yield_timeout.timeout(max_yield_usec);
             }
         }
+#ifdef PHOTON_VERIF
+        if (verif_expired) {
+            // a sleeping consumer was only rescued by its periodic re-check
+            VERIF_COV(C_RINGCHAN_RESCUE);
+            VERIF_EVENT(E_RING_RESCUE, this, verif_expired);
+        }
+#endif
         SendBackoff<T>::notify_senders(send_sem, send_waiters, send_pending);
         return x;
     }
